@@ -14,6 +14,7 @@ from . import r_c11 as D
 from . import r_witness as N
 from . import r_seed2 as U
 from . import r_vba as V
+from . import r_seed3 as U3
 
 
 def part(fn, **kw):
@@ -30,13 +31,13 @@ def _p(explanation, not_decided, rules, assumptions=None):
 def registry():
     R = {}
     R["C01"] = _p(
-        "Decides structural clauses of C01 on the typed HIR of src/xlsx: the two cell walkers move the row/column cursor identically (R-SIB-XLSX); a <c> with an `r` attribute is reported at the (row, col) that attribute decodes to, in that order, and otherwise at the running cursor (R-CELLPOS); the declared <dimension> only sizes capacity hints (R-DIM); running min/max of the bounding box are updated independently (R-MINMAX); element names are matched prefix-insensitively and like with like (R-NS); parts are opened only through the case-insensitive resolver (R-PART); the `t` attribute maps to the documented variants (R-TAB-T) and error literals to error kinds (R-TAB-ERR); shared-string and style indices are parsed as usize (R-IDXWIDTH); Empty cells are filtered before every push (R-TIGHT) and Empty means exactly the Empty variant (R-EMPTYDEF); readers expand empty elements and never trim (R-XMLCFG); the shared-string table gets one entry per <si> (R-SST); every Text/CData piece of an element is unescaped and appended, never assigned (R-CDATA).",
+        "Decides structural clauses of C01 on the typed HIR of src/xlsx: the two cell walkers move the row/column cursor identically (R-SIB-XLSX); a <c> with an `r` attribute is reported at the (row, col) that attribute decodes to, in that order, and otherwise at the running cursor (R-CELLPOS); the declared <dimension> only sizes capacity hints (R-DIM); running min/max of the bounding box are updated independently (R-MINMAX); element names are matched prefix-insensitively and like with like (R-NS); parts are opened only through the case-insensitive resolver (R-PART); the `t` attribute maps to the documented variants (R-TAB-T) and error literals to error kinds (R-TAB-ERR); shared-string and style indices are parsed as usize (R-IDXWIDTH); Empty cells are filtered before every push (R-TIGHT) and Empty means exactly the Empty variant (R-EMPTYDEF); readers expand empty elements and never trim (R-XMLCFG); the shared-string table gets one entry per <si> (R-SST); every Text/CData piece of an element is unescaped and appended, never assigned (R-CDATA); phonetic runs never reach the value of a string (R-RPH).",
         "A1 -> (row, col) arithmetic, number parsing, relationship-target normalisation, the zip layer; an identical edit applied to both walkers",
-        [S.r_sib_xlsx, W.r_dim, X.r_ns, X.r_part, T.r_tab_t, T.r_tab_err, S.r_tight, X.r_xmlcfg, part(W.r_sst, only=["xlsx shared"]), W.r_minmax, X.r_cdata, U.r_cellpos, U.r_idxwidth, U.r_emptydef])
+        [S.r_sib_xlsx, W.r_dim, X.r_ns, X.r_part, T.r_tab_t, T.r_tab_err, S.r_tight, X.r_xmlcfg, part(W.r_sst, only=["xlsx shared"]), W.r_minmax, X.r_cdata, U.r_cellpos, U.r_idxwidth, U.r_emptydef, X.r_rph])
     R["C02"] = _p(
-        "Decides structural clauses of C02 on src/xls.rs: the sheet-substream dispatch has an arm feeding the cell vector for each record kind the property names (R-TAB-REC); BoolErr / FormulaValue error codes follow MS-XLS BErr (R-TAB-ERR); every length guard that raises Len { expected: E } is exactly `len < E` (R-LENGUARD); the RK divide-by-100 flag divides by 100 and the 30-bit integer comes from an arithmetic shift of an i32 (R-RK); DIMENSIONS only sizes a reserve (R-DIM); bounding-box min/max are independent (R-MINMAX); per-sheet accumulators are appended to, never reassigned (R-ACCUM); shared strings that continue into CONTINUE records re-read the compression flag, skip rich/extended data in order and dequeue fragments first-in first-out (R-CONT).",
+        "Decides structural clauses of C02 on src/xls.rs: the sheet-substream dispatch has an arm feeding the cell vector for each record kind the property names (R-TAB-REC); BoolErr / FormulaValue error codes follow MS-XLS BErr (R-TAB-ERR); every length guard that raises Len { expected: E } is exactly `len < E` (R-LENGUARD); the RK divide-by-100 flag divides by 100 and the 30-bit integer comes from an arithmetic shift of an i32 (R-RK); DIMENSIONS only sizes a reserve (R-DIM); bounding-box min/max are independent (R-MINMAX); per-sheet accumulators are appended to, never reassigned (R-ACCUM); shared strings that continue into CONTINUE records re-read the compression flag, skip rich/extended data in order and dequeue fragments first-in first-out (R-CONT); the text of a string-valued formula is stored at the position of the last FORMULA record, state that only the FORMULA and STRING arms touch (R-FMLAPOS); the FormulaValue kinds 0..3 are told apart under the 0xFFFF marker and their payload is byte 2 (R-TAB-FMLAVAL).",
         "IEEE bit arithmetic, MULRK column arithmetic, string decoding inside encoding_rs",
-        [T.r_tab_rec, T.r_tab_err, W.r_dim, W.r_minmax, M.r_rk, M.r_accum, W.r_cont, U.r_lenguard])
+        [T.r_tab_rec, T.r_tab_err, W.r_dim, W.r_minmax, M.r_rk, M.r_accum, W.r_cont, U.r_lenguard, U3.r_fmlapos, U3.r_tab_fmlaval])
     R["C03"] = _p(
         "Decides structural clauses of C03 on src/xlsb: sibling agreement of next_cell / next_formula on record framing, row state, record ids and position computation (R-SIB-XLSB); error-code table (R-TAB-ERR); BrtWsDim only sizes capacity hints (R-DIM); Empty filter and header-row filter of the lazy range builder (R-TIGHT); the record-header decoders read at most 2 (type) / 4 (size) bytes of 7 bits each with shifts 7, 14, 21 -- partial evaluation of their MIR with the input bytes unknown (R-VARINT).",
         "RK arithmetic beyond the flag handling, wide_str decoding",
@@ -46,7 +47,7 @@ def registry():
         "the run-length arithmetic of get_range beyond the width clause (first_empty_rows_repeated, row_max bookkeeping), bounding-box positions",
         [T.r_tab_ods, X.r_xmlcfg, W.r_odspara, M.r_odsrep, M.r_odsflat, U.r_odswidth, U.r_benign])
     R["C06"] = _p(
-        "Decides, over the HIR/MIR of the reader modules (cfb, vba, xls, xlsb, xlsx, ods, utils, auto, plus Dimensions::len and Range::from_sparse): XML pull loops leave on Eof (R-EOF); self-chasing loops have a bounding exit (R-CHASE); Range::range preconditions (R-RANGEPRE); and, by abstract interpretation of MIR (linear expressions over source atoms, intervals, symbolic and exact slice lengths, branch refinement, helper summaries): every slice/index/split/copy on file bytes or with a file-derived index is bounds-proved (R-INDEX), file-derived arithmetic cannot overflow (R-ARITH), file-derived allocation sizes are capped or input-bounded (R-ALLOC), file-derived trip counts consume input or do not grow memory (R-AMP), unwrap/expect/panic constructs are discharged by an enumerated idiom (R-PANIC); the byte count of Read::read is never discarded (R-IOAMT); the character loop of read_dbcs advances to the next CONTINUE fragment or fails whenever characters are owed (R-DBCS-PROGRESS); reserved compound-file sector numbers never reach Sectors::get (R-CFBRES: one known finding).  Sites the pinned tree leaves unchecked are listed in known_findings.json (each group demonstrated by a failing input) or audited_safe.json (one reason per site).",
+        "Decides, over the HIR/MIR of the reader modules (cfb, vba, xls, xlsb, xlsx, ods, utils, auto, plus Dimensions::len and Range::from_sparse): XML pull loops leave on Eof (R-EOF); self-chasing loops have a bounding exit (R-CHASE); Range::range preconditions (R-RANGEPRE); and, by abstract interpretation of MIR (linear expressions over source atoms, intervals, symbolic and exact slice lengths, branch refinement; helper summaries: constant length needs moved to call sites, return intervals, facts a Result-returning guard helper ensures on Ok, argument intervals and argument relations of private functions): every slice/index/split/copy on file bytes or with a file-derived index is bounds-proved (R-INDEX), file-derived arithmetic cannot overflow (R-ARITH), file-derived allocation sizes are capped or input-bounded (R-ALLOC), file-derived trip counts consume input or do not grow memory, for counted `for` loops and for `while container.len() < n` loops (R-AMP), unwrap/expect/panic constructs are discharged by an enumerated idiom (R-PANIC); the byte count of Read::read is never discarded (R-IOAMT); the character loop of read_dbcs advances to the next CONTINUE fragment or fails whenever characters are owed (R-DBCS-PROGRESS); reserved compound-file sector numbers never reach Sectors::get (R-CFBRES: one known finding).  Sites the pinned tree leaves unchecked are listed in known_findings.json (each group demonstrated by a failing input) or audited_safe.json (one reason per site).",
         "dependencies (zip, quick-xml, encoding_rs, codepage); time / memory constants",
         [X.r_eof, W.r_rangepre, M.r_chase, Z.r_mir, U.r_ioamt, U.r_dbcs_progress, U.r_cfbres, U.r_ovbachunk])
     R["C07"] = _p(
@@ -58,9 +59,9 @@ def registry():
         "value equality between the eager (xls, ods) and lazy (xlsx, xlsb) implementations",
         [W.r_frame, S.r_tight, W.r_rangepre, S.r_deleg, W.r_dim, U.r_hdrwin])
     R["C09"] = _p(
-        "Decides: size_hint reads state that next advances (R-ITER); error positions depend on the column index and the row position advances (R-POS); every DataDeserializer method maps Data::Error to CellError{kind,pos} and Empty as documented (R-TAB-DE); header selection trims both sides, compares exactly and reports HeaderNotFound (R-HDR); map access skips exactly the empty cells (R-MAPKEY); integer cells reach integer fields by one `as` cast, never through a float (R-INTCAST); numeric strings are parsed as the field's own type (R-NUMPARSE).",
+        "Decides: size_hint reads state that next advances (R-ITER); error positions depend on the column index and the row position advances (R-POS); every DataDeserializer method maps Data::Error to CellError{kind,pos} and Empty as documented (R-TAB-DE); header selection trims both sides, compares exactly and reports HeaderNotFound (R-HDR); map access skips exactly the empty cells (R-MAPKEY); integer cells reach integer fields by one `as` cast, never through a float (R-INTCAST); numeric strings are parsed as the field's own type (R-NUMPARSE); the row position advances once per row taken, before any fallible step (R-POS every-row); only explicitly requested headers are located by name, the default stays positional (R-HDR all-positional).",
         "values of the casts themselves, serde's own behaviour",
-        [W.r_iter, W.r_pos, T.r_tab_de, W.r_hdr, W.r_mapkey, U.r_intcast, U.r_numparse, U.r_intarm, U.r_emptydef])
+        [W.r_iter, W.r_pos, T.r_tab_de, W.r_hdr, W.r_mapkey, U.r_intcast, U.r_numparse, U.r_intarm, U.r_emptydef, U3.r_pos_everyrow, U3.r_hdr_all])
     R["C10"] = _p(
         "Decides: numeric Data/DataRef variants are built in the three readers only through formats::format_excel_* whose format operand comes from the cell's style lookup and whose date-system operand from the reader flag (R-NUMCTOR); the xlsb style index is the 24-bit iStyleRef only (R-XLSBCELL), xlsx style indices are parsed as usize (R-IDXWIDTH); the two built-in id tables agree with each other and with ECMA-376 18.8.30 (R-TAB-FMT); declared formats win over built-in ids (R-FMTPREC); format kind -> DateTime/TimeDelta flavour (R-TAB-FMTKIND); format codes are unescaped (R-UNESC); style tables get one entry per xf (R-SST); the scanner's decision table is evaluated over a finite abstract input space against 13 clauses (R-FMT-SCAN).",
         "the full number-format grammar (R-FMT-SCAN decides the per-character decision table of the scanner against the clauses the property states, not the language as a whole)",
@@ -70,21 +71,21 @@ def registry():
         "the floating-point rounding to the millisecond, monotonicity as a numeric fact, Int/Float cells converting like 1900-system date-times beyond their routing through ExcelDateTime",
         [D.r_c11, D.r_c11_conv])
     R["C12"] = _p(
-        "Decides: after a fragment switch inside a character run the compression flag is re-read and its byte consumed; rich-text runs then extended data are skipped unconditionally in order; Record::skip consumes no flag byte (R-CONT); the SST gets one entry per item (R-SST); the character loop always advances or fails (R-DBCS-PROGRESS); all three storage forms are decoded by the one workbook decoder after widening (R-DBCS-ENC).",
+        "Decides: after a fragment switch inside a character run the compression flag is re-read and its byte consumed; rich-text runs then extended data are skipped unconditionally in order; Record::skip consumes no flag byte (R-CONT); the SST gets one entry per item (R-SST); the character loop always advances or fails (R-DBCS-PROGRESS); all three storage forms are decoded by the one workbook decoder after widening (R-DBCS-ENC), and nothing reaches the output string except through it (R-DBCS-ENC out).",
         "8/16-bit decoding arithmetic inside encoding_rs",
-        [W.r_cont, part(W.r_sst, only=["xls SST"]), U.r_dbcs_progress, U.r_dbcs_enc])
+        [W.r_cont, part(W.r_sst, only=["xls SST"]), U.r_dbcs_progress, U.r_dbcs_enc, U3.r_dbcs_out])
     R["C13"] = _p(
-        "Decides: header and directory-entry field offsets follow MS-CFB (R-TAB-CFB); mini-stream cutoff `len < 4096` selecting mini FAT vs FAT and truncation of the chain to the stream length (R-CFBFLOW); every directory entry is decoded (R-CFBDIR); FAT / DIFAT walks are bounded (R-CHASE: two known findings); the FAT tables are built append-only (R-CFBTAB); a Cfb is not cloned and then used alongside its clone, which would share the reader but not the sector cache (R-CFBCLONE).",
+        "Decides: header and directory-entry field offsets follow MS-CFB (R-TAB-CFB); mini-stream cutoff `len < 4096` selecting mini FAT vs FAT and truncation of the chain to the stream length (R-CFBFLOW); every directory entry is decoded (R-CFBDIR); FAT / DIFAT walks are bounded (R-CHASE: two known findings); the FAT tables are built append-only (R-CFBTAB); a Cfb is not cloned and then used alongside its clone, which would share the reader but not the sector cache (R-CFBCLONE); the directory and mini-FAT chains are truncated to sector count x sector size of the file (R-CFBLEN).",
         "sector offset arithmetic, chain order",
-        [T.r_tab_cfb, W.r_cfbflow, M.r_cfbdir, M.r_chase, U.r_cfbclone, U.r_cfbtab, U.r_cfbver, U.r_bookorder])
+        [T.r_tab_cfb, W.r_cfbflow, M.r_cfbdir, M.r_chase, U.r_cfbclone, U.r_cfbtab, U.r_cfbver, U.r_bookorder, U3.r_cfblen])
     R["C14"] = _p(
-        "Decides: operator tokens (R-TAB-OP) and error literals (R-TAB-ERR) of both token decoders follow MS-XLS/MS-XLSB; operand tokens push one entry and consume the payload width of the spec, reference tokens render the column masked to 14 bits with `$` exactly on the absolute components from the right payload bytes (R-TAB-PTG); formula cell positions through the sibling rules (R-SIB-XLSX, R-SIB-XLSB); defined-name tables get one entry per record so name tokens resolve (R-SST); both decoders keep the same operand-stack / output-buffer discipline per token class (R-SIB-PTG); PtgAttr sub-token widths follow the spec incl. the variable PtgAttrChoose table (R-TAB-ATTR); 3-D references and defined names reach their sheet through ExternSheet (R-XTI); every digit of a column index reaches the rendered letters (R-DIGITS, must-use on MIR); explicit cell references decide formula positions (R-CELLPOS).",
+        "Decides: operator tokens (R-TAB-OP) and error literals (R-TAB-ERR) of both token decoders follow MS-XLS/MS-XLSB; operand tokens push one entry and consume the payload width of the spec, reference tokens render the column masked to 14 bits with `$` exactly on the absolute components from the right payload bytes (R-TAB-PTG); formula cell positions through the sibling rules (R-SIB-XLSX, R-SIB-XLSB); defined-name tables get one entry per record so name tokens resolve (R-SST); both decoders keep the same operand-stack / output-buffer discipline per token class (R-SIB-PTG); PtgAttr sub-token widths follow the spec incl. the variable PtgAttrChoose table (R-TAB-ATTR); 3-D references and defined names reach their sheet through ExternSheet (R-XTI); every digit of a column index reaches the rendered letters (R-DIGITS, must-use on MIR); explicit cell references decide formula positions (R-CELLPOS); the token stream of a defined name is located from the record end or by the byte count of the name, never by its character count (R-LBLRGCE).",
         "the digit arithmetic of push_column beyond the must-use clause, function-name table contents",
-        [T.r_tab_op, T.r_tab_err, G.r_tab_ptg, S.r_sib_xlsx, S.r_sib_xlsb, part(W.r_sst, only=["Lbl", "BrtName"]), U.r_xti, U.r_digits, U.r_sib_ptg, U.r_cellpos, U.r_tab_attr, U.r_strbytes, U.r_trunc, U.r_names1to1, U.r_charcast, M.r_unesc])
+        [T.r_tab_op, T.r_tab_err, G.r_tab_ptg, S.r_sib_xlsx, S.r_sib_xlsb, part(W.r_sst, only=["Lbl", "BrtName"]), U.r_xti, U.r_digits, U.r_sib_ptg, U.r_cellpos, U.r_tab_attr, U.r_strbytes, U.r_trunc, U.r_names1to1, U.r_charcast, M.r_unesc, U3.r_lblrgce])
     R["C16"] = _p(
-        "Decides: metadata vectors are filled by order-preserving operations only (R-ORDER); visibility and sheet-kind tables follow the specs (R-TAB-VIS, R-TAB-TYP); the date-system element is matched prefix-insensitively (R-NS) and the flag reaches every number conversion (R-NUMCTOR) and accepts both boolean spellings without being reset by attribute-less extension elements (R-TAB-1904); xls defined names resolve their sheet through ExternSheet (R-XTI).",
+        "Decides: metadata vectors are filled by order-preserving operations only (R-ORDER); visibility and sheet-kind tables follow the specs (R-TAB-VIS, R-TAB-TYP); the date-system element is matched prefix-insensitively (R-NS) and the flag reaches every number conversion (R-NUMCTOR) and accepts both boolean spellings without being reset by attribute-less extension elements (R-TAB-1904); xls defined names resolve their sheet through ExternSheet (R-XTI) and their reference is located by bytes, not characters (R-LBLRGCE).",
         "exact name decoding",
-        [W.r_order, T.r_tab_vis, T.r_tab_typ, X.r_ns, W.r_numctor, M.r_tab_1904, M.r_unesc, U.r_xti, U.r_benign, U.r_strbytes, part(W.r_sst, only=["Lbl", "BrtName"]), U.r_names1to1])
+        [W.r_order, T.r_tab_vis, T.r_tab_typ, X.r_ns, W.r_numctor, M.r_tab_1904, M.r_unesc, U.r_xti, U.r_benign, U.r_strbytes, part(W.r_sst, only=["Lbl", "BrtName"]), U.r_names1to1, U3.r_lblrgce])
     R["C17"] = _p(
         "Decides: guarded header/totals adjustments use their own field and regions/tables are attributed to the scanned sheet (R-TBL); per-table defaults are re-initialised per table (R-TBLFRESH); element loops end only at the closing tag, end of input or error (R-COUNTHINT); merge regions accumulate (R-ACCUM); worksheet_merge_cells_at(n) uses the n-th sheet name (R-AT); mergeCell / table elements are matched prefix-insensitively (R-NS); column names are unescaped (R-UNESC); cache fields are written only by their loaders (R-FRAME); Range::range precondition before table windowing (R-RANGEPRE).",
         "coordinate arithmetic",
@@ -94,13 +95,13 @@ def registry():
         "that decompression inverts compression (the copy loop, token arithmetic on concrete values), the reference records, project information records other than the code page",
         [V.r_tab_vbadir, V.r_vbamod, V.r_tab_ovba, U.r_ovbachunk, V.r_vbaref, V.r_ovbastart])
     R["C19"] = _p(
-        "Decides: shared-string tables get one entry per item (R-SST); every text-accumulating event match handles Text and CData, unescapes and appends (R-CDATA); readers never trim and always expand empty elements (R-XMLCFG); phonetic flag set/cleared in pairs and guarding <t> (R-RPH); prefix-insensitive element matching incl. rich-text closing tags (R-NS); text attributes are unescaped (R-UNESC); CONTINUE handling of xls strings (R-CONT) and the single-decoder rule for their storage forms (R-DBCS-ENC); xlsb strings go through a UTF-16 decoder (R-UTF16); ods paragraphs (R-ODSPARA); item loops are not cut at declared counts (R-COUNTHINT).",
+        "Decides: shared-string tables get one entry per item (R-SST); every text-accumulating event match handles Text and CData, unescapes and appends (R-CDATA); readers never trim and always expand empty elements (R-XMLCFG); phonetic flag set/cleared in pairs and guarding <t> (R-RPH); prefix-insensitive element matching incl. rich-text closing tags (R-NS); text attributes are unescaped (R-UNESC); CONTINUE handling of xls strings (R-CONT) and the single-decoder rule for their storage forms (R-DBCS-ENC); xlsb strings go through a UTF-16 decoder (R-UTF16); ods paragraphs (R-ODSPARA); item loops are not cut at declared counts (R-COUNTHINT); xlsb record sizes keep all 28 bits (R-VARINT).",
         "per-character decoding in dependencies (encoding_rs, quick-xml entity expansion)",
-        [part(W.r_sst, only=["shared strings", "xls SST"]), X.r_cdata, X.r_xmlcfg, X.r_rph, X.r_ns, W.r_cont, W.r_odspara, M.r_unesc, M.r_counthint, U.r_dbcs_enc, U.r_utf16])
+        [part(W.r_sst, only=["shared strings", "xls SST"]), X.r_cdata, X.r_xmlcfg, X.r_rph, X.r_ns, W.r_cont, W.r_odspara, M.r_unesc, M.r_counthint, U.r_dbcs_enc, U.r_utf16, U.r_varint, U3.r_dbcs_out])
     R["C20"] = _p(
-        "Decides: the password sniff dominates archive opening and its error is propagated; it rewinds the reader to offset 0 right before parsing the compound file; Password depends exactly on the EncryptedPackage entry; the FILEPASS arm is unconditional and the only place where xls builds Password; any manifest:encryption-data start returns Password and the scan is always reached; Password variants are built nowhere else (R-PWD).",
+        "Decides: the password sniff dominates archive opening and its error is propagated; it rewinds the reader to offset 0 right before parsing the compound file; Password depends exactly on the EncryptedPackage entry; the FILEPASS arm is unconditional and the only place where xls builds Password; any manifest:encryption-data start returns Password and the scan is always reached; Password variants are built nowhere else (R-PWD); the directory the sniff searches is read in full whatever the sector size (R-CFBLEN).",
         "container-layout independence of the sniff (delegated to C13)",
-        [W.r_pwd])
+        [W.r_pwd, U3.r_cfblen])
     return R
 
 
